@@ -103,7 +103,7 @@ func (r *DefaultReader) acquireSlow(n int) int {
 		r.bufReadOnly = false
 	}
 
-	for i := 0; i < maxConsecutiveEmptyReads; i++ {
+	for i := 0; i < maxConsecutiveEmptyReads; {
 		m, err := r.rd.Read(r.buf[len(r.buf):cap(r.buf)])
 		r.buf = r.buf[:len(r.buf)+m]
 		if err != nil {
@@ -113,7 +113,15 @@ func (r *DefaultReader) acquireSlow(n int) int {
 		if n <= len(r.buf)-r.ri {
 			return n
 		}
+		if m > 0 {
+			// only consecutive empty reads count
+			i = 0
+		} else {
+			i++
+		}
 	}
+	// never return a short count without an error
+	r.err = io.ErrNoProgress
 	return len(r.buf) - r.ri
 }
 
